@@ -105,6 +105,9 @@ fn run_cs(s: &str, a: usize, b: usize) -> (String, String) {
             let oknum = rows.get(2).map_or(false, |r| r.trim_start().starts_with(&format!("{} | ", st.0)));
             let okmark = rows.iter().any(|r| r.contains('^'));
             if !(okhead && oknum && okmark) { fail(format!("span rendering: head={} num={} mark={}", okhead, oknum, okmark)); }
+            // the gutter: every row that has a `|` bar has it in the same character column (the marker row is aligned with the text rows)
+            let bars: Vec<usize> = rows.iter().skip(1).filter(|r| !r.trim_start().starts_with('=')).filter_map(|r| r.chars().position(|c| c == '|')).collect();
+            if bars.windows(2).any(|w| w[0] != w[1]) { fail(format!("span rendering: the `|` bars are in columns {:?}", bars)); }
             format!("elc={} disp={}", l, hexs(d))
         }
         Err(_) => { fail("Error::new_from_span/Display panicked".into()); "panic".into() }
